@@ -177,7 +177,7 @@ ADDENDA = {
     "C19": "recovery functions whose error quotes a panic value that is not valid UTF-8",
     "C01": "a sixth of the runs put an interceptor on one side that receives streamed messages through the conn-level API into two scratch "
            "values used in turn; codec marshal failures (plain and wrapping io.EOF) on some messages; " + TRANSPORT_HABITS,
-    "C02": "errors (plain or coded) whose cause wraps io.EOF; details whose type is not linked into the binary or that have no JSON form (the two listed open findings); errors received from another "
+    "C02": "errors (plain or coded) whose cause wraps io.EOF; details whose type is not linked into the binary or that have no JSON form (the two listed open findings); handlers whose codecs marshal the service's own messages only (a tenth of the runs: intact over Connect, a coded failure with its metadata over gRPC / gRPC-Web); errors received from another "
            "call and passed on; " + TRANSPORT_HABITS,
     "C04": "a third of the exchanges have a read limit on the handler, an over-limit message mid-request and a handler that carries on "
            "receiving; gRPC responses are also re-delivered with Response.Trailer complete from the start (an in-memory HTTPClient) and cut at "
